@@ -60,6 +60,24 @@ static void fault(const std::string &s)
         g_fault = s;
 }
 
+// exception injection: the element operations that may throw (default / value / copy construction, copy
+// assignment; moves and the destructor are noexcept) count down a fuse; at 0 the operation throws BEFORE it
+// changes anything and the fuse is disarmed.  -1 = disarmed.
+struct Boom
+{
+};
+static long g_fuse = -1;
+static inline void tick()
+{
+    if (g_fuse == 0)
+    {
+        g_fuse = -1;
+        throw Boom();
+    }
+    if (g_fuse > 0)
+        g_fuse--;
+}
+
 struct Tracked
 {
     int val;
@@ -90,6 +108,7 @@ struct Tracked
     }
     Tracked()
     {
+        tick();
         reg("construct");
         val = 0;
         heap = new char(0);
@@ -97,6 +116,7 @@ struct Tracked
     }
     Tracked(int v)
     {
+        tick();
         reg("construct");
         val = v;
         heap = new char((char)v);
@@ -104,6 +124,7 @@ struct Tracked
     }
     Tracked(const Tracked &o)
     {
+        tick();
         int v = o.rd("copy-construct");
         reg("construct");
         val = v;
@@ -125,6 +146,7 @@ struct Tracked
     }
     Tracked &operator=(const Tracked &o)
     {
+        tick();
         g_ev.asg++;
         int v = o.rd("assign");
         if (!isreg())
@@ -317,8 +339,47 @@ template <class V, class T, bool PORTABLE> struct Mach : MachBase
     }
     static T mk(int x) { return T(x); }
 
-    void step(const std::vector<std::string> &w, out &o) override
+    // a foreign array of elements (insx / tctor), built and destroyed outside the event / fuse window
+    struct ExtArr
     {
+        T *p;
+        size_t n;
+        ExtArr(const std::vector<int> &xs) : n(xs.size())
+        {
+            Ev keep = g_ev;
+            long f = g_fuse;
+            g_fuse = -1;
+            p = std::allocator<T>().allocate(n ? n : 1);
+            for (size_t k = 0; k < n; k++)
+                new ((void *)(p + k)) T(xs[k]);
+            g_ev = keep;
+            g_fuse = f;
+        }
+        ~ExtArr()
+        {
+            Ev keep = g_ev;
+            long f = g_fuse;
+            g_fuse = -1;
+            for (size_t k = 0; k < n; k++)
+                p[k].~T();
+            std::allocator<T>().deallocate(p, n ? n : 1);
+            g_ev = keep;
+            g_fuse = f;
+        }
+    };
+
+    void step(const std::vector<std::string> &w0, out &o) override
+    {
+        // `x <k> <op …>`: the k-th (from 0) throwing-capable element operation inside the member function throws
+        std::vector<std::string> w = w0;
+        long arm = -1;
+        if (w[0] == "x" && w.size() >= 3 && TRK && !PORTABLE)
+        {
+            arm = atol(w[1].c_str());
+            w.erase(w.begin(), w.begin() + 2);
+        }
+        bool threw = false;
+        std::unique_ptr<T> xarg; // a value argument of the harness: built before and destroyed after the window
         const std::string &op = w[0];
         auto I = [&](size_t k) { return k < w.size() ? atoi(w[k].c_str()) : 0; };
         std::string ret = "-";
@@ -327,11 +388,14 @@ template <class V, class T, bool PORTABLE> struct Mach : MachBase
         int a = I(1);
         V *&v = r[a % NREG];
         std::vector<int> &mv = m[a % NREG];
-#define BEGIN_EV g_ev = Ev()
-#define END_EV ev = g_ev
+#define BEGIN_EV (g_ev = Ev(), g_fuse = arm)
+#define END_EV (ev = g_ev, g_fuse = -1)
+        try
+        {
         if (op == "push")
         {
-            T x = mk(I(2));
+            xarg.reset(new T(mk(I(2))));
+            T &x = *xarg;
             BEGIN_EV;
             v->push_back(x);
             END_EV;
@@ -371,7 +435,8 @@ template <class V, class T, bool PORTABLE> struct Mach : MachBase
         }
         else if (op == "ins" || op == "insi")
         {
-            T x = mk(I(3));
+            xarg.reset(new T(mk(I(3))));
+            T &x = *xarg;
             bool grow = v->size() == v->capacity();
             BEGIN_EV;
             auto it = op == "ins" ? v->insert(v->begin() + I(2), x) : v->insert((int)I(2), x);
@@ -431,20 +496,15 @@ template <class V, class T, bool PORTABLE> struct Mach : MachBase
         else if (op == "insx")
         { // a foreign range (exactly sized heap array)
             size_t n = w.size() - 3;
-            T *ext = std::allocator<T>().allocate(n ? n : 1);
             std::vector<int> rng;
             for (size_t k = 0; k < n; k++)
-            {
-                new ((void *)(ext + k)) T(I(3 + k));
                 rng.push_back(I(3 + k));
-            }
+            ExtArr ea(rng);
+            T *ext = ea.p;
             bool grow = v->size() + n > v->capacity();
             BEGIN_EV;
             auto it = v->insert(v->begin() + I(2), (const T *)ext, (const T *)ext + n);
             END_EV;
-            for (size_t k = 0; k < n; k++)
-                ext[k].~T();
-            std::allocator<T>().deallocate(ext, n ? n : 1);
             ret = std::to_string(it - v->begin());
             mv.insert(mv.begin() + I(2), rng.begin(), rng.end());
             o.tag(grow ? "insx-grow" : "insx-room");
@@ -453,7 +513,8 @@ template <class V, class T, bool PORTABLE> struct Mach : MachBase
         {
             if constexpr (!PORTABLE)
             {
-                T x = mk(I(2));
+                xarg.reset(new T(mk(I(2))));
+                T &x = *xarg;
                 BEGIN_EV;
                 auto it = v->insert_sorted(x);
                 END_EV;
@@ -488,11 +549,16 @@ template <class V, class T, bool PORTABLE> struct Mach : MachBase
         }
         else if (op == "resize")
         {
+            size_t before = mv.size(), capb = v->capacity();
+            // dirty the spare slots of an int vector explicitly: resize must VALUE-initialise (0), whatever was there
+            if (!TRK && v->data())
+                for (size_t k = before; k < capb; k++)
+                    memset((void *)(v->data() + k), 0x5a, sizeof(T));
             BEGIN_EV;
             v->resize(I(2));
             END_EV;
             mv.resize(I(2));
-            o.tag((size_t)I(2) > mv.size() ? "resize-grow" : "resize-shrink");
+            o.tag((size_t)I(2) > before ? ((size_t)I(2) <= capb ? "resize-grow-in-capacity" : "resize-grow-realloc") : "resize-shrink");
         }
         else if (op == "reserve")
         {
@@ -523,8 +589,10 @@ template <class V, class T, bool PORTABLE> struct Mach : MachBase
         else if (op == "cctor" || op == "mctor" || op == "rctor" || op == "szctor" || op == "tctor" || op == "ilist")
         { // destroy register a, construct a new vector in its place
             BEGIN_EV;
+            g_fuse = -1; // the destructor of the old object is outside the fuse window (it has no throwing operation anyway)
             delete v;
             v = nullptr;
+            g_fuse = arm;
             int s = I(2) % NREG;
             if (op == "cctor")
             {
@@ -551,22 +619,14 @@ template <class V, class T, bool PORTABLE> struct Mach : MachBase
             }
             else if (op == "tctor")
             { // template <class I, class O> vector(I first, O last) with a foreign const range
-                Ev keep = g_ev;
                 size_t n = w.size() - 2;
-                T *ext = std::allocator<T>().allocate(n ? n : 1);
                 std::vector<int> rng;
                 for (size_t k = 0; k < n; k++)
-                {
-                    new ((void *)(ext + k)) T(I(2 + k));
                     rng.push_back(I(2 + k));
-                }
-                g_ev = keep;
+                ExtArr ea(rng);
+                T *ext = ea.p;
+                mv.clear();
                 v = new V((const T *)ext, (const T *)ext + n);
-                keep = g_ev;
-                for (size_t k = 0; k < n; k++)
-                    ext[k].~T();
-                std::allocator<T>().deallocate(ext, n ? n : 1);
-                g_ev = keep;
                 mv = rng;
             }
             else
@@ -789,6 +849,45 @@ template <class V, class T, bool PORTABLE> struct Mach : MachBase
             o.fail("unknown op");
             return;
         }
+        }
+        catch (const Boom &)
+        {
+            threw = true;
+        }
+        g_fuse = -1;
+        {
+            Ev keep = g_ev; // the harness' own argument object is not an event of the operation
+            xarg.reset();
+            g_ev = keep;
+        }
+        if (threw)
+        {
+            // the injected exception left the member function.  STRONG guarantee where std::vector gives it
+            // (single-element insertion at any position, resize, reserve, the constructors: no object comes to
+            // exist): the mirror is left as it was and check() compares.  BASIC guarantee for the range insert and
+            // copy assignment: the vector holds SOME valid sequence - the mirror is re-read from it and check()
+            // still demands that every slot below size() holds a constructed, not moved-from object, that the
+            // number of live objects is the sum of the sizes and that capacity() is the block size.
+            ev = g_ev;
+            ret = "threw";
+            bool ctor_op = op == "cctor" || op == "tctor" || op == "rctor" || op == "szctor";
+            bool basic = op == "insr" || op == "insx" || op == "cas";
+            if (ctor_op)
+            {
+                if (!v)
+                    v = new V();
+                mv.clear();
+            }
+            else if (basic)
+            {
+                mv.clear();
+                for (size_t k = 0; k < v->size(); k++)
+                    mv.push_back(peek(v->data()[k]));
+            }
+            o.tag(basic ? "threw-basic" : ctor_op ? "threw-ctor" : "threw-strong");
+        }
+        else if (arm >= 0)
+            o.tag("fuse-not-reached");
         g_tot.ctor += ev.ctor; g_tot.mctor += ev.mctor; g_tot.dtor += ev.dtor; g_tot.asg += ev.asg; g_tot.masg += ev.masg;
         g_tot.alloc += ev.alloc; g_tot.dealloc += ev.dealloc;
         o.result = ret + " " + show(0) + " " + show(1) + " " + show(2) + " ev=" + evs(ev);
@@ -893,6 +992,45 @@ template <class K, class Cmp> struct FlatMirror : MirrorBase
         }
         else if (op == "mcopy")
             exp = "10";
+        else if (op == "miter")
+        {
+            exp = "";
+            for (auto &kv : mm)
+                exp += (exp.empty() ? "" : ",") + std::to_string(unbox(kv.first)) + ">" + std::to_string(kv.second);
+            if (exp.empty())
+                exp = "-";
+            o.tag(mm.size() >= 3 ? "map-iter-3+" : "map-iter");
+        }
+        else if (op == "meq")
+        { // two std::maps with the same entries are equal whatever the insertion order
+            exp = "10";
+            o.tag(mm.size() >= 2 ? "map-eq-2+" : "map-eq");
+        }
+        else if (op == "mcget")
+        {
+            auto it = mm.find(I(1));
+            exp = it == mm.end() ? "0" : std::to_string(it->second);
+            o.tag(it == mm.end() ? "cget-absent" : "cget-present");
+        }
+        else if (op == "mmisc")
+        { // hosted only: forward | reverse | all the other members consistent
+            std::string f, r;
+            for (auto it = mm.begin(); it != mm.end(); ++it)
+                f += (f.empty() ? "" : ",") + std::to_string(unbox(it->first)) + ">" + std::to_string(it->second);
+            for (auto it = mm.rbegin(); it != mm.rend(); ++it)
+                r += (r.empty() ? "" : ",") + std::to_string(unbox(it->first)) + ">" + std::to_string(it->second);
+            exp = (f.empty() ? "-" : f) + "|" + (r.empty() ? "-" : r) + "|1";
+        }
+        else if (op == "smisc")
+            exp = std::to_string(ms.size()) + "," + std::to_string(ms.size());
+        else if (op == "ctrdtr")
+            exp = std::to_string(V(1)) + "," + std::to_string(V(1)) + "," + std::to_string(V(1)) + ",1";
+        else if (op == "mview")
+        {
+            static const std::map<int, int> ref{{1, 0}, {4, 10}, {7, 20}, {10, 30}};
+            auto it = ref.find(V(1));
+            exp = (it == ref.end() ? std::string("end") : std::to_string(std::distance(ref.begin(), it)) + ">" + std::to_string(it->second)) + ",4,4";
+        }
         else if (op == "sins")
             o.tag(ms.insert(I(1)).second ? "set-new" : "set-dup");
         else if (op == "scount")
@@ -1060,38 +1198,49 @@ struct Gen
         }
         for (int i = 0; i < n; i++)
         {
-            emit((R.chance(50) ? "push " : "eback ") + S(r) + " " + S(val()));
+            emit((R.chance(50) ? "push " : "eback ") + S(r) + " " + S(1 + (int)R.below(9))); // non-zero: the memory is dirty afterwards
         }
         sz[r] = n;
     }
-    // one operation on register r valid for the tracked size; returns false if not applicable
-    bool op(int kind, int r)
+    // one operation on register r valid for the tracked size; returns false if not applicable.
+    // fz >= 0: the operation is run with the exception fuse `x fz` (only kinds with a throwing-capable element
+    // operation; the generator predicts whether the exception fires and what the vector holds afterwards)
+    bool op(int kind, int r, int fz = -1)
     {
         int n = sz[r];
+        std::string X = fz >= 0 ? "x " + S(fz) + " " : "";
+        bool one = fz == 0; // kinds with exactly one throwing-capable operation throw iff the fuse is 0
         switch (kind)
         {
-        case 0: emit("push " + S(r) + " " + S(val())); grow(r, n + 1); sz[r]++; return true;
-        case 1: emit("eback " + S(r) + " " + S(val())); grow(r, n + 1); sz[r]++; return true;
+        case 0: emit(X + "push " + S(r) + " " + S(val())); if (one) return true; grow(r, n + 1); sz[r]++; return true;
+        case 1: emit(X + "eback " + S(r) + " " + S(val())); if (one) return true; grow(r, n + 1); sz[r]++; return true;
         case 2: if (!n) return false; emit("pop " + S(r)); sz[r]--; return true;
-        case 3: emit((R.chance(80) ? "ins " : "insi ") + S(r) + " " + S(pos(n)) + " " + S(val())); grow(r, n + 1); sz[r]++; return true;
-        case 4: emit("empl " + S(r) + " " + S(pos(n)) + " " + S(val())); grow(r, n + 1); sz[r]++; return true;
-        case 5: if (!n) return false; emit("pushself " + S(r) + " " + S(pos(n - 1))); grow(r, n + 1); sz[r]++; return true;
-        case 6: if (!n) return false; emit("insself " + S(r) + " " + S(pos(n)) + " " + S(pos(n - 1))); grow(r, n + 1); sz[r]++; return true;
-        case 7: if (!n) return false; emit("ebackself " + S(r) + " " + S(pos(n - 1))); grow(r, n + 1); sz[r]++; return true;
-        case 8: if (!n) return false; emit("emplself " + S(r) + " " + S(pos(n)) + " " + S(pos(n - 1))); grow(r, n + 1); sz[r]++; return true;
+        case 3: emit(X + (R.chance(80) ? "ins " : "insi ") + S(r) + " " + S(pos(n)) + " " + S(val())); if (one) return true; grow(r, n + 1); sz[r]++; return true;
+        case 4: emit(X + "empl " + S(r) + " " + S(pos(n)) + " " + S(val())); if (one) return true; grow(r, n + 1); sz[r]++; return true;
+        case 5: if (!n) return false; emit(X + "pushself " + S(r) + " " + S(pos(n - 1))); if (one) return true; grow(r, n + 1); sz[r]++; return true;
+        case 6: if (!n) return false; emit(X + "insself " + S(r) + " " + S(pos(n)) + " " + S(pos(n - 1))); if (one) return true; grow(r, n + 1); sz[r]++; return true;
+        case 7: if (!n) return false; emit(X + "ebackself " + S(r) + " " + S(pos(n - 1))); if (one) return true; grow(r, n + 1); sz[r]++; return true;
+        case 8: if (!n) return false; emit(X + "emplself " + S(r) + " " + S(pos(n)) + " " + S(pos(n - 1))); if (one) return true; grow(r, n + 1); sz[r]++; return true;
         case 9:
         {
             int f = pos(n), l = pos(n);
             if (f > l) std::swap(f, l);
-            emit("insr " + S(r) + " " + S(pos(n)) + " " + S(f) + " " + S(l));
-            grow(r, n + l - f); sz[r] += l - f; return true;
+            int q = pos(n);
+            emit(X + "insr " + S(r) + " " + S(q) + " " + S(f) + " " + S(l));
+            if (l - f > 0) grow(r, n + l - f);
+            if (fz >= 0 && fz < l - f) { sz[r] = q + fz; return true; } // basic guarantee: the prefix and the copies made so far
+            sz[r] += l - f; return true;
         }
         case 10:
         {
             int k = (int)R.range(0, 4);
-            std::string s = "insx " + S(r) + " " + S(pos(n));
+            int q = pos(n);
+            std::string s = X + "insx " + S(r) + " " + S(q);
             for (int i = 0; i < k; i++) s += " " + S(val());
-            emit(s); grow(r, n + k); sz[r] += k; return true;
+            emit(s);
+            if (k > 0) grow(r, n + k);
+            if (fz >= 0 && fz < k) { sz[r] = q + fz; return true; }
+            sz[r] += k; return true;
         }
         case 11:
         {
@@ -1100,28 +1249,32 @@ struct Gen
             emit("erase " + S(r) + " " + S(f) + " " + S(l)); sz[r] -= l - f; return true;
         }
         case 12: { int k = pos(n); emit("eraseto " + S(r) + " " + S(k)); sz[r] = k; return true; }
-        case 13: { int k = (int)R.range(0, n + 3); if (R.chance(30)) k = pos(n); emit("resize " + S(r) + " " + S(k)); grow(r, k); sz[r] = k; return true; }
+        case 13: { int k = (int)R.range(0, n + 3); if (R.chance(30)) k = pos(n); emit(X + "resize " + S(r) + " " + S(k)); grow(r, k); if (fz >= 0 && fz < k - n) return true; sz[r] = k; return true; }
         case 14: { int k = (int)R.range(0, std::max(cap[r], n) + 3); emit("reserve " + S(r) + " " + S(k)); grow(r, k); return true; }
         case 15: emit("clear " + S(r)); sz[r] = 0; return true;
         case 16: emit("inval " + S(r)); sz[r] = 0; cap[r] = 0; return true;
-        case 17: { int s = (r + 1 + (int)R.below(2)) % 3; emit("cctor " + S(r) + " " + S(s)); sz[r] = sz[s]; cap[r] = sz[s]; return true; }
+        case 17: { int s = (r + 1 + (int)R.below(2)) % 3; emit(X + "cctor " + S(r) + " " + S(s)); if (fz >= 0 && fz < sz[s]) { sz[r] = 0; cap[r] = 0; return true; } sz[r] = sz[s]; cap[r] = sz[s]; return true; }
         case 18: { int s = (r + 1 + (int)R.below(2)) % 3; emit("mctor " + S(r) + " " + S(s)); sz[r] = sz[s]; cap[r] = cap[s]; sz[s] = 0; cap[s] = 0; return true; }
-        case 19: { int s = (int)R.below(3); emit("cas " + S(r) + " " + S(s)); if (s != r) { sz[r] = sz[s]; cap[r] = sz[s]; } return true; }
+        case 19: { int s = (int)R.below(3); emit(X + "cas " + S(r) + " " + S(s)); if (s != r) { cap[r] = sz[s]; sz[r] = (fz >= 0 && fz < sz[s]) ? fz : sz[s]; } return true; }
         case 20: { int s = (int)R.below(3); emit("mas " + S(r) + " " + S(s)); if (s != r) { sz[r] = sz[s]; cap[r] = cap[s]; sz[s] = 0; cap[s] = 0; } return true; }
         case 21:
         {
             int s = (r + 1 + (int)R.below(2)) % 3;
             int f = pos(sz[s]), l = pos(sz[s]);
             if (f > l) std::swap(f, l);
-            emit("rctor " + S(r) + " " + S(s) + " " + S(f) + " " + S(l)); sz[r] = l - f; cap[r] = l - f; return true;
+            emit(X + "rctor " + S(r) + " " + S(s) + " " + S(f) + " " + S(l));
+            if (fz >= 0 && fz < l - f) { sz[r] = 0; cap[r] = 0; return true; }
+            sz[r] = l - f; cap[r] = l - f; return true;
         }
         case 22: return false;
         case 23:
         {
             int k = (int)R.range(0, 4);
-            std::string s = "tctor " + S(r);
+            std::string s = X + "tctor " + S(r);
             for (int i = 0; i < k; i++) s += " " + S(val());
-            emit(s); sz[r] = k; cap[r] = k; return true;
+            emit(s);
+            if (fz >= 0 && fz < k) { sz[r] = 0; cap[r] = 0; return true; }
+            sz[r] = k; cap[r] = k; return true;
         }
         case 24:
         {
@@ -1138,7 +1291,7 @@ struct Gen
         case 29: if (!n) return false; emit("fb " + S(r)); return true;
         case 30: emit("iter " + S(r)); return true;
         case 31: { if (portable) return false; emit("inss " + S(r) + " " + S(val())); grow(r, n + 1); sz[r]++; return true; }
-        case 32: { int k = (int)R.range(0, 4); emit("szctor " + S(r) + " " + S(k)); sz[r] = k; cap[r] = k; return true; }
+        case 32: { int k = (int)R.range(0, 4); emit(X + "szctor " + S(r) + " " + S(k)); if (fz >= 0 && fz < k) { sz[r] = 0; cap[r] = 0; return true; } sz[r] = k; cap[r] = k; return true; }
         }
         return false;
     }
@@ -1146,6 +1299,7 @@ struct Gen
 
     void history(const char *ty, bool p, int len)
     {
+        bool trk = std::string(ty) == "trk";
         begin(ty, p);
         for (int i = 0; i < len; i++)
         {
@@ -1158,7 +1312,13 @@ struct Gen
                 k = (int)R.below(NKIND);
             if (k == 22)
                 k = 32;
-            op(k, r);
+            // exception injection (instrumented element type, vector.h): about one operation in eight of the kinds
+            // that contain a throwing-capable element operation runs with a fuse of 0..3
+            static const bool throwing[NKIND] = {1, 1, 0, 1, 1, 1, 1, 1, 1, 1, 1, 0, 0, 1, 0, 0, 0, 1, 0, 1, 0, 1, 0, 1, 0, 0, 0, 0, 0, 0, 0, 0, 1};
+            if (trk && !p && throwing[k] && R.chance(13))
+                op(k, r, (int)R.below(4));
+            else
+                op(k, r);
         }
         emit("end");
     }
@@ -1212,6 +1372,15 @@ struct Gen
                     one([&] { emit("resize 0 " + S(k)); sz[0] = k; });
                     one([&] { emit("reserve 0 " + S(k)); });
                 }
+                // value-initialisation on DIRTY memory: shrink (the slots keep the bytes of the destroyed elements), then
+                // grow again inside the capacity; a recycled block (the freed block of the same size class comes back)
+                for (int q = 0; q <= n; q++)
+                    one([&] { emit("eraseto 0 " + S(q)); emit("resize 0 " + S(n + slack)); sz[0] = n + slack; });
+                one([&] { emit("clear 0"); emit("resize 0 " + S(n + slack)); sz[0] = n + slack; });
+                if (n)
+                    one([&] { emit("pop 0"); emit("resize 0 " + S(n)); sz[0] = n; });
+                one([&] { emit("inval 0"); emit("szctor 0 " + S(n + slack)); sz[0] = n + slack; });
+                one([&] { emit("mctor 1 0"); emit("inval 1"); emit("szctor 0 " + S(n + slack)); sz[0] = n + slack; });
                 one([&] { emit("push 0 5"); sz[0] = n + 1; });
                 one([&] { emit("eback 0 5"); sz[0] = n + 1; });
                 if (n)
@@ -1234,6 +1403,66 @@ struct Gen
                         one([&] { emit("inss 0 " + S(x)); sz[0] = n + 1; });
                     one([&] { emit("at 0 " + S(n)); emit("at 0 " + S(n + 5)); if (n) emit("at 0 " + S(n - 1)); if (n) emit("cat 0 " + S(n - 1)); });
                 }
+            }
+    }
+
+    // exception injection, exhaustively for small sizes (instrumented element type, vector.h): every operation that
+    // contains a throwing-capable element operation, every position, every fuse value that fires; afterwards the
+    // vector must be usable (push, iteration, front/back) and destructible without a leak (`end`)
+    void exceptions(int maxn, int stride, int &counter)
+    {
+        for (int n = 0; n <= maxn; n++)
+            for (int slack : {0, 1, 3})
+            {
+                auto one = [&](const std::string &line, int reg = 0) {
+                    if ((counter++ % stride) != 0)
+                        return;
+                    begin("trk", false);
+                    build(0, n, slack);
+                    if (reg == 1)
+                        build(1, 2, 1);
+                    emit(line);
+                    emit("push " + S(reg) + " 9");
+                    emit("iter " + S(reg));
+                    emit("fb " + S(reg));
+                    emit("eq 0 1");
+                    emit("end");
+                };
+                for (int q = 0; q <= n; q++)
+                {
+                    one("x 0 ins 0 " + S(q) + " 7");
+                    one("x 0 empl 0 " + S(q) + " 7");
+                    for (int k = 0; k < 3; k++)
+                        one("x " + S(k) + " insx 0 " + S(q) + " 7 8 9");
+                    for (int i = 0; i < n; i++)
+                        one("x 0 insself 0 " + S(q) + " " + S(i));
+                    for (int f = 0; f <= n; f++)
+                        for (int l = f + 1; l <= n; l++)
+                            for (int k : {0, l - f - 1})
+                                if (k == 0 || l - f > 1)
+                                    one("x " + S(k) + " insr 0 " + S(q) + " " + S(f) + " " + S(l));
+                }
+                one("x 0 push 0 5");
+                one("x 0 eback 0 5");
+                one("x 1 push 0 5"); // fuse not reached
+                for (int i = 0; i < n; i++)
+                    one("x 0 pushself 0 " + S(i));
+                for (int m = n + 1; m <= n + 3; m++)
+                    for (int k = 0; k < m - n; k++)
+                        one("x " + S(k) + " resize 0 " + S(m));
+                for (int k = 0; k < n; k++)
+                {
+                    one("x " + S(k) + " cas 1 0", 1);
+                    one("x " + S(k) + " cctor 1 0", 1);
+                    one("x " + S(k) + " rctor 1 0 0 " + S(n), 1);
+                }
+                for (int k = 0; k < 3; k++)
+                {
+                    one("x " + S(k) + " tctor 1 4 5 6", 1);
+                    one("x " + S(k) + " szctor 1 3", 1);
+                }
+                if (n)
+                    one("x 0 inss 0 4");
             }
     }
 
@@ -1281,8 +1510,11 @@ struct Gen
         for (int i = 0; i < len; i++)
         {
             int k = (int)R.range(0, keys) - off, v = (int)R.range(0, 99);
-            switch (R.below(17))
+            switch (R.below(20))
             {
+            case 17: emit(compat || R.chance(60) ? "miter" : R.chance(50) ? "mmisc" : R.chance(50) ? "smisc" : "mview " + S(k)); break;
+            case 18: emit(R.chance(40) ? "meq" : "mcget " + S(k)); break;
+            case 19: emit(R.chance(45) ? "miter" : R.chance(10) ? "ctrdtr " + S(v) : "mcget " + S(k)); break;
             case 13: emit(R.chance(50) ? "msize" : "ssize"); break;
             case 14: emit("siter"); break;
             case 15: emit("sins " + S(k)); break;
@@ -1343,6 +1575,10 @@ struct Gen
                     }
                     emit("mset 1 5");
                     emit("mcount 1");
+                    emit("miter");
+                    emit("meq");
+                    emit("mcget 1");
+                    emit("mcget 7");
                 }
     }
     // every insertion order of up to 4 distinct keys (set + map insert)
@@ -1359,6 +1595,22 @@ struct Gen
             }
             emit("sins " + S(p[1]));
             emit("mins " + S(p[2]) + " 77");
+            emit("miter");
+            // the same four keys through the other insertion paths (operator[] write / read, emplace), then one more
+            // through insert: every path must keep the storage in key order
+            emit("mclear");
+            emit("mset " + S(p[0]) + " 1");
+            emit("mempl " + S(p[1]) + " 2");
+            emit("mget " + S(p[2]));
+            emit("mins " + S(p[3]) + " 4");
+            emit("mins " + S(p[0] + 4) + " 5");
+            emit("miter");
+            emit("meq");
+            if (!compat)
+            {
+                emit("mmisc");
+                emit("smisc");
+            }
             if (!cmp.empty())
             {
                 // keys that are equivalent to a stored one under the by-last-digit order, new ones under the others
@@ -1406,6 +1658,7 @@ static void gen(rng &r, const std::string &tier)
             if (std::string(ty) == "trk" || th)
                 g.comparisons(ty, p);
         }
+    g.exceptions(th ? 5 : 4, 1, counter);
     int hist = th ? 4000 : 260;
     for (int i = 0; i < hist; i++)
     {
